@@ -21,7 +21,11 @@ TRUSTED = [
     "thread program; instances: SQL-statement sequences / DbInv, lock_protects_data; mutual exclusion; invariance over all schedules), "
     "ConcBreach.v (Owicki-Gries outline of add_appointment || block connected: accepted_then_watched_or_gone), ConcLin.v (read-only "
     "threads; a thread only panics at its own sites; witnesses by vm_compute), ConcReg.v (any number of concurrent registrations are "
-    "linearizable), ConcPurge.v (Owicki-Gries outline of register || the gatekeeper's purge: an acknowledged registration survives)",
+    "linearizable), ConcPurge.v (Owicki-Gries outline of register || the gatekeeper's purge: an acknowledged registration survives), "
+    "ConcCoarse.v (every run_coarse execution is a run_sched execution; coarse configurations are settled), ConcMix.v / ConcRW.v / "
+    "ConcDisc.v (a reader against one arbitrary thread: reduction to mix runs over the other thread's solo states; instances register, "
+    "disconnect, add_appointment off the trigger path), ConcComm.v (commuting threads whose first actions decide the order: register || "
+    "disconnect)",
     "the tie of the thread programs to the code: hook H3 (teos/src/verif_sync.rs) in CONTROLLED mode — harness/src/bin/conc parks "
     "every thread in before_acquire and grants one lock request at a time, so a schedule (one thread index per lock "
     "acquisition) is replayed exactly on the real Gatekeeper/Watcher/Responder/Carrier/InternalAPI (harness/src/world.rs, "
@@ -44,6 +48,11 @@ TRUSTED = [
 REFUTATIONS = {
     "C10_single_charge_refuted": "ledger:same-appointment-submitted-concurrently",
     "C10_add_connect_not_linearizable": "serial:height-stamps-only",
+    "C10_reader_reply_not_linearizable": "reply:get:appointment-visible-before-its-trigger-is-handled",
+    "C10_reader_purge_reply_not_linearizable": "reply:get:not-found-after-its-owner-was-purged",
+    "C10_reader_add_reply_not_linearizable": "reply:getsub:charged-before-the-appointment-is-stored",
+    "C10_reader_block_reply_not_linearizable": "reply:get:expiry-test-before-the-block-tables-after-it",
+    "C10_register_add_replies_not_linearizable": "linear:add+reg:RO,AO",
 }
 
 
@@ -154,7 +163,7 @@ def run(ctx):
                 "stateless depth-first search on the real tower, plus every sequential order of the same operations on the real tower; "
                 "each run: replies, tables users/appointments/trackers, gatekeeper memory, RPC multiset, poisoning, per-thread lock "
                 "trace compared with the model's run_coarse on the same word; the word set compared with the model's own enumeration; "
-                "monitor (serial / unwatched / ledger / orphan / panic) evaluated on the implementation's observations. "
+                "monitor (serial / unwatched / ledger / orphan / panic / reply / linear) evaluated on the implementation's observations. "
                 "distinct = distinct (case, word); all are non-trivial (every word interleaves at least two threads' lock acquisitions or "
                 "is one of the non-preemptive orders)")
             try:
@@ -175,7 +184,7 @@ def run(ctx):
                                "first": corr[0][:3000], "count": len(corr)})
         seen = set()
         # report the most telling violation first: what the property names, then serializability, then aborts
-        prio = {"unwatched": 0, "ledger": 1, "orphan": 2, "serial": 3, "panic": 4}
+        prio = {"unwatched": 0, "ledger": 1, "orphan": 2, "serial": 3, "panic": 4, "reply": 5, "linear": 6}
         mon.sort(key=lambda f: (prio.get(MON_RE.match(f).group(1), 9) if MON_RE.match(f) else 9))
         for f in mon:
             m = MON_RE.match(f)
